@@ -25,3 +25,91 @@ CHECKS = {
         "technique": "TLC exhaustive model check of the step function + exhaustive spec->code replay + TLC trace judging",
     },
 }
+
+_BIND = ("bound to the code in both directions: TLC-generated behaviours are replayed into the real object (spec->code) and recorded "
+         "executions of the real object are judged by TLC against the contract (code->spec), with deliberately corrupted canary traces "
+         "in every batch")
+
+CHECKS.update({
+    "C01": {
+        "text": "Contract (valid <=> intact with TLC's own FCS-16, exact accessors, disjoint in-order flag-delimited segments) is checked by "
+                "TLC on every frame of every recorded execution of the real reader, and as invariants of the implementation-shaped reader "
+                "model (with its buffer layer) over all wires of a segment library under all chunkings, 4 configurations. " + _BIND + ".",
+        "design_ref": "§6-C01",
+        "note": "frames above ~12 octets are sampled, not enumerated; segmentation witnesses are searched in Python and verified by TLC; "
+                "trusted: TLC, CommunityModules Bitwise/Json overrides, the recording transport",
+        "technique": "TLA+ contract + implementation-shaped reader spec, TLC refinement check, two-way trace conformance",
+    },
+    "C02": {
+        "text": "TLC re-derives every planned frame with its reference encoder (MkFrame/Stuff), checks the plan is in the statement's domain, "
+                "and that the valid deliveries of the real reader equal the planned frames exactly once and in order with exact fields, for "
+                "every chunking recorded; the bounded model proves the same for all clean wires of its library under all chunkings. " + _BIND + ".",
+        "design_ref": "§6-C02",
+        "note": "frame sizes/payloads sampled (0..max incl. 2047-octet frames); extra invalid deliveries on a clean stream are not forbidden "
+                "by the statement and ignored",
+        "technique": "TLC-verified generation plans + TLC trace judging + bounded model invariant CleanDelivered",
+    },
+    "C04": {
+        "text": "TLC recomputes CRC-16/ARC and the identification-line check for every observed readout (built directly and through the "
+                "reader): valid => well-formed ident; checksum present and different => not valid (incl. 0000, case variants); well-formed "
+                "and correct => valid; payload exact. MC_DataReadout checks the implementation-shaped is_valid against the four clauses on "
+                "a readout grammar; Gen_P1 cases with real CRC are replayed into the code. " + _BIND + ".",
+        "design_ref": "§6-C04",
+        "note": "bit-flip neighbourhoods of captured/generated readouts (sampled in quick above 100 octets); readouts with several '!' are "
+                "judged on clause (a) only",
+        "technique": "TLA+ readout contract judged by TLC on recorded observations + grammar-case generation from the spec",
+    },
+    "C05": {
+        "text": "Bounded model of the line-oriented reader with its buffer and (scaled) guard: every complete readout of a clean stream is "
+                "delivered exactly once under ALL chunkings (TLC finds the lost-readout schedules of the pinned design); real reader: "
+                "TLC-verified plans of up to 120 back-to-back readouts (hundreds of KiB) under chunkings incl. the model's counterexample "
+                "family, deliveries judged by TLC. " + _BIND + ".",
+        "design_ref": "§6-C05",
+        "note": "guard scaled to 14 octets in the model (8191 in the code); readout contents sampled",
+        "technique": "TLC model of the reader+buffer (all chunkings) + TLC-verified plans + trace judging",
+    },
+    "C06": {
+        "text": "Model invariant Refines: after every call, reader state and all outputs equal the buffer-free per-octet fold of everything fed "
+                "(all chunkings of all library wires). Real code: exhaustive small scope (all 6^7 bodies over a structural alphabet as "
+                "7E.body.7E.tail, 4 configurations, whole/per-octet/cut chunkings) plus random streams under >=5 chunkings; TLC judges that "
+                "all runs of a stream return the same frames. " + _BIND + ".",
+        "design_ref": "§6-C06",
+        "note": "small-scope alphabet {7E,7D,5E,A0,07,02}; streams on which no chunking returns a frame are vacuous (counted, 1% still judged)",
+        "technique": "TLC refinement invariant + exhaustive small-scope differential chunking judged by TLC",
+    },
+    "C16": {
+        "text": "From every reachable state of the bounded HDLC and P1 reader models a clean suffix is delivered within the stated loss "
+                "bound (TLC invariant Resync; scaled maximum length / guard); real readers: 9 HDLC and 12 P1 noise-prefix kinds incl. escape-"
+                "terminated, aborted, over-long, near-guard prefixes followed by TLC-verified clean suffixes, judged by TLC. " + _BIND + ".",
+        "design_ref": "§6-C16, §8-9",
+        "note": "without stuffing the clean suffix consists of flag-free frames (a flag inside a later payload re-opens the ambiguity the "
+                "bound excludes, for any reader); suffix messages are pairwise distinct",
+        "technique": "TLC invariant over all reachable reader states + TLC-verified resync plans judged on recorded executions",
+    },
+    "C17": {
+        "text": "Task-level TLA+ model of connect_loop/close/_try_connect (one action per stretch between awaits, environment close/loss/"
+                "outcomes, arbitrary interleaving of ready tasks) checked against the contract monitor exhaustively; the real manager runs "
+                "on a deterministic virtual-time loop for every outcome script x lifetime pattern with close() injected at EVERY loop "
+                "iteration, plus thousands of reconnect cycles; each event trace is judged by TLC with the same contract operators.",
+        "design_ref": "§6-C17",
+        "note": "events are recorded by harness-owned fakes (factory, transport); interleavings of the real loop are those reachable by "
+                "moving close() across iterations (asyncio's ready queue is FIFO); task bound 8",
+        "technique": "TLC model checking of the task model against the contract + trace validation of virtual-time executions",
+    },
+    "C18": {
+        "text": "BackOff contract min(2^(n-1), max) checked by TLC on the implementation-shaped strategy for all sequences to 14 and on "
+                "recorded sequences of the real object (all 2^12/2^14 sequences, random to 200, max_delay 1..3600); attempt times of the "
+                "real manager on the virtual clock are judged by TLC against the lower/upper pacing bounds and the loss breaker.",
+        "design_ref": "§6-C18",
+        "note": "manager clock rebinding from the harness; slack 0.5 s virtual",
+        "technique": "TLC model check + TLC judging of recorded strategy sequences and virtual-time manager traces",
+    },
+    "C19": {
+        "text": "Model invariant BufBounded (retained octets <= K + last chunk) over all reachable states of both reader models with scaled "
+                "limits (this is how TLC found the flag-fill growth of the non-stuffing reader); real readers: 16 stream patterns incl. the "
+                "model-derived growth cycles, 256 KiB..16 MiB, chunk sizes 1..64 KiB, deep size sampled and judged by TLC (bound + trend).",
+        "design_ref": "§6-C19",
+        "note": "Python object sizes are measured (sys.getsizeof over gc referents), not modelled; constant 64 KiB + 2 x chunk",
+        "technique": "TLC invariant on the buffer model + measured memory samples judged by TLC",
+    },
+})
